@@ -245,3 +245,27 @@ package verifspec
 //@   ensures result.$high >= 0 && result.$high <= 4294967295 && result.$low >= 0 && result.$low <= 4294967295
 //@   ensures !returnRemainder ==> (result.$high * 4294967296 + result.$low - tdiv(x.$high * 4294967296 + x.$low, y.$high * 4294967296 + y.$low)) % 18446744073709551616 == 0
 //@   ensures returnRemainder ==> (result.$high * 4294967296 + result.$low - tmod(x.$high * 4294967296 + x.$low, y.$high * 4294967296 + y.$low)) % 18446744073709551616 == 0
+
+// ---- shift counts of any magnitude (mode jn: the count is a mathematical integer >= 64, e.g. the constant 1<<63 of
+// type uint64): the result does not depend on the bits of x.
+//@ js numeric.js $shiftLeft64 int64big
+//@ property C06
+//@   prune
+//@   param x: i64, y: bigcount
+//@   ensures result.$high == 0 && result.$low == 0
+//@ js numeric.js $shiftLeft64 uint64big
+//@ property C06
+//@   prune
+//@   param x: u64, y: bigcount
+//@   ensures result.$high == 0 && result.$low == 0
+//@ js numeric.js $shiftRightInt64 big
+//@ property C06
+//@   prune
+//@   param x: i64, y: bigcount
+//@   ensures x.$high < 0 ==> result.$high == -1 && result.$low == 4294967295
+//@   ensures x.$high >= 0 ==> result.$high == 0 && result.$low == 0
+//@ js numeric.js $shiftRightUint64 big
+//@ property C06
+//@   prune
+//@   param x: u64, y: bigcount
+//@   ensures result.$high == 0 && result.$low == 0
